@@ -6,12 +6,22 @@ Level 1 (read)   bamToCountTable.assignReads on ONE in-memory pysam read and a f
                  NM 0/1/2/absent, XA non-alt / alt-only / mixed, NH, mp, SM, feature value, by-value value, contig,
                  position in/out of the blacklist)  x  option sets (11 booleans incl. blacklist x minMQ {0,30} x
                  max_base_edits {None,1} x feature mode {joined, single tags, joined+byValue}).
-                 quick: option sets within distance <= 3 of the default; thorough: ALL 24576.
+                 quick: option sets within distance <= 3 of the default; thorough: ALL of them.
+                 Added by the audit (gen/c11_reads.py lists the letters): reads on a contig that is in no blacklist / BED
+                 file, reads touching a blacklist interval / BED region from outside and from inside, secondary /
+                 supplementary records, empty XA, float by-value value, feature values holding a delimiter, BI / bi / both,
+                 DS; options (--splitFeatures, -featureDelimiter) as ONE dimension of 4 values, feature modes one joined tag / tag-alias-attribute
+                 lookups (joined, single) / joined + -bin.  These are enumerated within distance <= 2 (quick) / <= 3
+                 (thorough) of the default over ALL reads; the first version's space (core letters) is kept in full.
 Level 2 (table)  create_count_table(args, return_df=True) on a BAM holding all these reads (synthesised with pysam
                  under /dev/shm, sorted + indexed) x option sets within distance <= 2 (quick) / <= 3 (thorough)
-                 x -contig {none, chr1, chr2} x -bedfile {none, 3 regions} (joined mode); blacklist from a BED file.
+                 x -contig {none, chr1, chr2} x -bedfile {none, 3 regions} (all feature modes but by-value and bin);
+                 blacklist from a BED file.
                  Sample tags 'SM,ri' (ri = unique read id) give every read its own column, so the table is compared
                  read by read; additionally 'SM' alone (reads pooled per sample) for option sets within distance 1.
+                 For option sets within distance 1 x -contig {none, chr1} x -bedfile also: the reads dealt over TWO
+                 alignment files; -head {0, 3, 10^6}; the table written with -o (csv, pickle, pickle.gz) and with
+                 --bulk, read back from the file; --noNames on the pooled table; named two-level sample tags SM,chrom.
 
 Oracle: oracles/c11_oracle.py - an independent recomputation from the property text and the CLI help strings on the
 abstract read descriptions.  Where the documentation is silent/ambiguous the case is executed (exceptions still count)
@@ -25,21 +35,36 @@ import tempfile
 ID = 'C11'
 DESIGN_REF = 'DESIGN.md section 3, C11'
 RULE = ('level 1: exhaustive product (reads within 2 attribute changes of a plain good read) x (option sets within the '
-        'stated distance of the default; thorough = all) through assignReads, one state per (read, option set); '
+        'stated distance of the default: quick = distance <= 2 over all option values plus distance <= 3 over the core '
+        'values; thorough = distance <= 3 over all values plus the FULL product of the core values x the core reads) '
+        'through assignReads, one state per (read, option set); '
         'non-trivial when at least one selected option or changed attribute bears on the verdict, i.e. the read is '
         'excluded by a selected filter, its weight differs from the default 0.5 or it feeds more than one cell; level 2: one table per (option set, '
-        '-contig, -bedfile, sample tags) through create_count_table on the BAM of all reads, compared cell by cell '
+        '-contig, -bedfile, sample tags, slice) through create_count_table on the BAM of all reads, compared cell by cell '
         '(per read with sample tags SM,ri), non-trivial always (the BAM holds counted, filtered and re-weighted reads); '
+        'slices (option distance <= 1): reads dealt over two alignment files, -head, -o csv / pickle / pickle.gz with and '
+        'without --bulk read back from the file, --noNames, named two-level sample tags; '
         'ambiguous (undocumented) cases are executed but not compared and are never counted as non-trivial')
 ASSUMPTIONS = [
     'XA tags are in bwa format (one "chr,pos,CIGAR,NM;" entry per alternative hit, trailing semicolon); the number of '
     'reported hits is the number of XA entries + 1, or NH',
-    'every read carries SM, the feature tag (XT) and the by-value tag (RC); feature values contain no delimiter',
+    'every read carries SM, the feature tag (XT), the by-value tag (RC), the bin tag (DS) and BI or bi; a feature value holds '
+    'a delimiter only as a separator of non-empty pieces',
     'reads lie fully inside or fully outside blacklist / BED regions; BED regions are disjoint',
     'undocumented interactions are not judged: unpaired read with --r1only/--r2only, missing NM with -max_base_edits, '
     'missing/other mp with --filterMP, XA and NH disagreeing, -byValue with a divided weight (value or value x weight '
-    'accepted), -byValue / single feature tags together with -bedfile (not generated)',
-    'level 1 calls assignReads the way create_count_table does (feature tag list with the by-value tag appended)',
+    'accepted), -byValue or -bin together with -bedfile (not generated)',
+    'with -bedfile the key of a read is its key without the option followed by (start, end, name) of the region, for '
+    'joined and for single feature tags alike',
+    'level 1 calls assignReads the way create_count_table does (feature tag list with the by-value / bin tag appended, '
+    'sliding = bin, reference lengths set)',
+    '--splitFeatures with -byValue is refused by the program (NotImplementedError) and not generated; with --splitFeatures a '
+    'piece may be incremented by the weight or by an equal share of it',
+    '-head N is only judged for what the property still says: no read is counted that a filter excludes or at another '
+    'weight / key, and the passing reads among the first N records of the (contig-restricted) file are counted; how many '
+    'records beyond N are looked at is left open; with -bedfile only the first clause',
+    '-bin is used with one size (100) on contigs of 1000 bases, so no bin is over the bounds (C10 decides the bin arithmetic)',
+    'tables written with -o are compared after reading them back with pandas (csv: keys compared as strings)',
     'the per-read sample tag pair SM,ri is a device of this check, not part of the quantified space: those tables are '
     'requested with --noNames (naming the two column levels of an EMPTY result raises ValueError in pandas, which is '
     'outside this property); the pooled SM tables keep the default naming',
@@ -50,28 +75,34 @@ TOL = 1e-9
 
 def bounds(tier):
     from gen import c11_reads as R
-    b = {'read_attribute_changes': 2, 'attributes': {a: v for a, v in R.ALTS}, 'options': {d: v for d, v in R.DIMS},
+    b = {'read_attribute_changes': 2, 'attributes': {a: v for a, v in R.ALTS},
+         'options': {d: [list(x) if isinstance(x, tuple) else x for x in v] for d, v in R.DIMS},
          'contig_selection': [None, 'chr1', 'chr2'], 'bed_regions': R.BED, 'blacklist': R.BLACKLIST,
-         'level2_sample_tags': ['SM,ri', 'SM (distance<=1)']}
+         'level2_sample_tags': ['SM,ri', 'SM (distance<=1)'],
+         'core_attributes': R.CORE_ALTS, 'core_option_values': R.CORE_VALUES, 'feature_modes': R.FEATURE_ARGS,
+         'level2_distance<=1_slices': {'files': ['one', 'split2'], 'head': HEADS, 'out': OUTS,
+                                       'pooled_noNames': [False, True], 'named_sample_tags': 'SM,chrom',
+                                       'contig': [None, 'chr1']}}
     if tier == 'quick':
-        b.update({'level1_option_distance': 3, 'level2_option_distance': 2})
+        b.update({'level1_option_distance': {'core letters': 3, 'all letters': 2}, 'level2_option_distance': 2})
     else:
-        b.update({'level1_option_distance': 'all', 'level2_option_distance': 3})
+        b.update({'level1_option_distance': {'core letters x core reads': 'all', 'all letters': 3},
+                  'level2_option_distance': 3})
     return b
 
 
+HEADS = [0, 3, 10 ** 6]
+OUTS = ['csv', 'pickle', 'pickle.gz', 'csv+bulk', 'pickle.gz+bulk']
+
+
+N_READ_SHARDS = 32
 N_TABLE_SHARDS = 32
 
 
 def shards(tier):
-    from gen import c11_reads as R
-    import itertools
-    out = []
-    for combo in itertools.product([False, True], repeat=len(R.SHARD_DIMS)):
-        out.append(('read', combo))
-    for i in range(N_TABLE_SHARDS):
-        out.append(('table', i))
-    return out
+    """level 1: the option sets (simplest first) dealt round-robin over N_READ_SHARDS shards, each x all its reads;
+    level 2: the table configurations dealt round-robin over N_TABLE_SHARDS shards"""
+    return [('read', i) for i in range(N_READ_SHARDS)] + [('table', i) for i in range(N_TABLE_SHARDS)]
 
 
 # ------------------------------------------------------------------------------------------------ comparison
@@ -80,7 +111,7 @@ def _ok(value, acceptable):
     return any(abs(value - a) <= TOL for a in acceptable)
 
 
-def classify(site, rd, opt, blacklist_idx, got, exp, excluded_by=None):
+def classify(site, rd, opt, blacklist_idx, got, exp, excluded_by=None, key_class=''):
     """got {(sample,key): value}, exp {(sample,key): set(acceptable)} of ONE read -> [(signature, detail)]"""
     from oracles import c11_oracle as O
     got = {k: v for k, v in got.items() if abs(v) > TOL}
@@ -92,19 +123,35 @@ def classify(site, rd, opt, blacklist_idx, got, exp, excluded_by=None):
         why = list(excluded_by or []) + O.why_not(rd, opt, blacklist_idx)
         return [(f'{site}:counted-read-excluded-by:{why[0] if why else "unknown"}', detail)]
     if not got:
-        return [(f'{site}:dropped-read-passing-all-filters', detail)]
+        return [(f'{site}:dropped-read-passing-all-filters{key_class or _dropped_class(rd, opt, blacklist_idx)}', detail)]
     if set(got) != set(exp):
-        return [(f'{site}:wrong-sample-or-feature-key', detail)]
+        return [(f'{site}:wrong-sample-or-feature-key{key_class}', detail)]
     for k in exp:
         if not _ok(got[k], exp[k]):
             if opt['features'] == 'joined+byValue':
                 cls = 'byValue'
+            elif opt.get('splitFeatures') and len(exp) > 1:
+                cls = 'splitFeatures'
             elif opt['divideMultimapping'] and (rd['XA'] is not None or rd['NH'] is not None):
                 cls = 'multimapping-division'
             else:
                 cls = 'fragment-division'
             return [(f'{site}:wrong-weight:{cls}', detail)]
     return []
+
+
+def _dropped_class(rd, opt, blacklist_idx):
+    """configuration class of a wrongly dropped read (part of the signature)"""
+    from oracles import c11_oracle as O
+    if blacklist_idx and not rd['unmapped']:
+        a, b = rd['pos'], rd['pos'] + O.ref_span(rd['cigar'])
+        if any(a == be or b == bs for bs, be in blacklist_idx.get(rd['contig'], ())):
+            return ':read-touching-blacklist-interval-from-outside'
+    if rd['aln'] != 'primary':
+        return ':secondary-or-supplementary-record'
+    if blacklist_idx and not rd['unmapped'] and rd['contig'] not in blacklist_idx:
+        return ':contig-without-blacklist-interval'
+    return ''
 
 
 def _nontrivial(rd, opt, exp):
@@ -134,12 +181,21 @@ def _level1_setup():
 
 
 def _feature_lists(opt):
-    """what create_count_table hands to assignReads for the three feature modes (joinFeatures, featureTags)"""
-    if opt['features'] == 'single':
-        return False, ['XT', 'chrom']
-    if opt['features'] == 'joined':
-        return True, ['XT', 'chrom']
-    return True, ['XT', 'chrom', 'RC']
+    """what create_count_table hands to assignReads for the feature modes (joinFeatures, featureTags)"""
+    from gen import c11_reads as R
+    return R.feature_tags(opt)
+
+
+def setup():
+    """the oracle's table of feature modes and the generator's must describe the same command lines"""
+    from gen import c11_reads as R
+    from oracles import c11_oracle as O
+    from mc.bind import HarnessError
+    for m, (joined, tags, by, bin_) in R.FEATURE_ARGS.items():
+        if O.MODES.get(m) != (joined, tuple(tags.split(',')), by, bin_):
+            raise HarnessError(f'C11 feature mode {m}: generator and oracle disagree')
+    if set(O.MODES) != set(R.FEATURE_ARGS) or (O.BI_VALUE, O.bi_VALUE, O.BIN) != (R.BI_VALUE, R.bi_VALUE, R.BIN):
+        raise HarnessError('C11 feature modes / constants: generator and oracle disagree')
 
 
 def check_read(rd, pr, opt, args=None):
@@ -148,7 +204,7 @@ def check_read(rd, pr, opt, args=None):
     from oracles import c11_oracle as O
     from singlecellmultiomics.bamProcessing import bamToCountTable as T
     if args is None:
-        args = R.make_args(opt)
+        args = R.make_args(opt, level1=True)
     join, feats = _feature_lists(opt)
     bl_real = R.BLACKLIST if opt['blacklist'] else None
     bl_idx = R.BLACKLIST_IDX if opt['blacklist'] else None
@@ -166,7 +222,8 @@ def check_read(rd, pr, opt, args=None):
 # ------------------------------------------------------------------------------------------------ level 2
 
 class Files:
-    """BAMs (full / without unmapped reads / only never-ambiguous reads), BED and blacklist files in one temp dir"""
+    """BAMs (full / without unmapped reads / only never-ambiguous reads; each also dealt over two files), BED and
+    blacklist files in one temp dir"""
 
     def __init__(self):
         from gen import c10_counttable as G
@@ -180,9 +237,12 @@ class Files:
             'mapped': [rd for rd in self.reads if not rd['unmapped']],
             'clean': [rd for rd in self.reads if R.never_ambiguous(rd)],
         }
-        self.bam = {}
+        self.bam, self.bam2 = {}, {}
         for name, rds in self.sets.items():
             self.bam[name] = G.write_bam(os.path.join(self.dir, f'{name}.bam'), hdr, [R.to_pysam(rd, hdr) for rd in rds])
+            # the same reads dealt alternately over two files: every sample and most cells occur in both
+            self.bam2[name] = [G.write_bam(os.path.join(self.dir, f'{name}_{k}.bam'), hdr,
+                                           [R.to_pysam(rd, hdr) for rd in rds[k::2]]) for k in (0, 1)]
         self.bed = os.path.join(self.dir, 'regions.bed')
         with open(self.bed, 'w') as f:
             for c, s, e, n in R.BED:
@@ -192,60 +252,163 @@ class Files:
             for c, ivs in R.BLACKLIST.items():
                 for s, e in ivs:
                     f.write(f'{c}\t{s}\t{e}\n')
+        self.n_out = 0
 
     def close(self):
         shutil.rmtree(self.dir, ignore_errors=True)
 
 
+def file_order(reads, contig=None):
+    """the records in the order of the coordinate-sorted BAM (gen.c10_counttable.write_bam), optionally of one contig"""
+    from gen import c11_reads as R
+    idx = sorted(range(len(reads)), key=lambda i: (reads[i]['contig'], reads[i]['pos'], i))
+    return [reads[i] for i in idx if contig is None or R.CONTIG_NAMES[reads[i]['contig']] == contig]
+
+
+def bed_allowed(opt):
+    """-bedfile goes with every feature mode except by-value and bin (those interactions are undocumented: the by-value
+    key becomes the tag NAME, and -bin overrides the region)"""
+    return opt['features'] not in ('joined+byValue', 'joined+bin')
+
+
 def table_configs(max_distance):
-    """[(opt, contig, bed, sample_tags)] - the level-2 space, deterministic order"""
+    """[(opt, contig, bed, sample_tags, extra)] - the level-2 space, deterministic order.
+    extra: {} or one of {'files': 'split2'}, {'head': n}, {'out': kind}, {'noNames': True}"""
     from gen import c11_reads as R
     out = []
     for opt in R.option_sets(max_distance):
         d = R.distance(opt)
         for contig in (None, 'chr1', 'chr2'):
             for bed in (False, True):
-                if bed and opt['features'] != 'joined':
+                if bed and not bed_allowed(opt):
                     continue
-                out.append((opt, contig, bed, 'SM,ri'))
+                out.append((opt, contig, bed, 'SM,ri', {}))
                 if d <= 1:
-                    out.append((opt, contig, bed, 'SM'))
+                    out.append((opt, contig, bed, 'SM', {}))
+                if d <= 1 and contig != 'chr2':
+                    out.append((opt, contig, bed, 'SM,ri', {'files': 'split2'}))
+                    out.append((opt, contig, bed, 'SM', {'files': 'split2'}))
+                    for h in HEADS:
+                        out.append((opt, contig, bed, 'SM,ri', {'head': h}))
+                    for o in OUTS:
+                        out.append((opt, contig, bed, 'SM', {'out': o}))
+                    out.append((opt, contig, bed, 'SM', {'noNames': True}))
+                    out.append((opt, contig, bed, 'SM,chrom', {}))
     return out
 
 
-def _run_table(files, which, opt, contig, bed, sample_tags):
+def table_to_dict(df):
+    """gen.c10_counttable.table_to_dict (same canonical form), but in one pass over the value matrix: the per-read tables
+    have a thousand columns"""
+    import numpy as np
+    from gen.c10_counttable import _plain, _tup
+    out = {}
+    if df.shape[0] == 0 or df.shape[1] == 0:
+        return out
+    vals = df.to_numpy(dtype=float, na_value=float('nan'))
+    cols = [tuple(_plain(x) for x in _tup(c)) for c in df.columns.tolist()]
+    rows = [tuple(_plain(x) for x in _tup(r)) for r in df.index.tolist()]
+    for i, j in np.argwhere(~np.isnan(vals)):
+        k = (cols[j], rows[i])
+        out[k] = out.get(k, 0.0) + float(vals[i, j])
+    return out
+
+
+def _str_cells(cells, merge):
+    out = {}
+    for (sm, k), v in cells.items():
+        kk = (tuple(str(x) for x in sm), tuple(str(x) for x in k))
+        out[kk] = merge(out[kk], v) if kk in out else v
+    return out
+
+
+def _read_written(path, kind, n_levels):
+    """the table a -o run wrote, as {(sample tuple, key tuple): float}; csv keys are strings"""
+    import pandas as pd
+    from gen import c10_counttable as G
+    if kind.startswith('csv'):
+        df = pd.read_csv(path, index_col=list(range(n_levels)), dtype=str, keep_default_na=False, na_values=[''])
+        df = df.astype(float)
+        df.columns = [str(c) for c in df.columns]
+    else:
+        df = pd.read_pickle(path)
+    return table_to_dict(df)
+
+
+def _run_table(files, which, opt, contig, bed, sample_tags, extra, n_levels=None):
     from gen import c10_counttable as G
     from gen import c11_reads as R
-    args = R.make_args(opt, alignmentfiles=[files.bam[which]], contig=contig, bedfile=(files.bed if bed else None),
+    from singlecellmultiomics.bamProcessing import bamToCountTable as T
+    import copy
+    paths = files.bam2[which] if extra.get('files') == 'split2' else [files.bam[which]]
+    no_names = extra.get('noNames', sample_tags == 'SM,ri')
+    args = R.make_args(opt, alignmentfiles=list(paths), contig=contig, bedfile=(files.bed if bed else None),
                        blacklist=(files.blacklist if opt['blacklist'] else None), sampleTags=sample_tags,
-                       noNames=(sample_tags != 'SM'))
-    return G.table_to_dict(G.run_table(args))
+                       noNames=no_names, head=extra.get('head'))
+    kind = extra.get('out')
+    if kind is None:
+        return table_to_dict(G.run_table(args))
+    files.n_out += 1
+    ext = kind.split('+')[0]
+    path = os.path.join(files.dir, f'out{files.n_out}.{ext}')
+    a = copy.copy(args)
+    a.o = path
+    a.bulk = kind.endswith('+bulk')
+    with G.quiet():
+        T.create_count_table(a, return_df=False)
+    try:
+        if not os.path.exists(path):
+            raise FileNotFoundError(f'-o {ext}: no file written')
+        return _read_written(path, ext, n_levels)
+    finally:
+        if os.path.exists(path):
+            os.unlink(path)
 
 
-def check_table(files, opt, contig, bed, sample_tags):
+def check_table(files, opt, contig, bed, sample_tags, extra=None):
     from gen import c11_reads as R
     from oracles import c11_oracle as O
+    extra = extra or {}
     out = []
     which = 'full' if sample_tags == 'SM,ri' else 'clean'
     stags = tuple(sample_tags.split(','))
+    bl_idx = R.BLACKLIST_IDX if opt['blacklist'] else None
+    kind = extra.get('out')
+    n_levels = None
+    if sample_tags != 'SM,ri':
+        exp0, amb0 = O.expected_table(files.sets[which], opt, R.CONTIG_NAMES, bl_idx, stags, contig=contig,
+                                      bed=(R.BED if bed else None))
+        if not exp0 and (kind is not None or len(stags) > 1):
+            # an empty table: nothing to read back from a file; naming two column levels of an empty frame raises in
+            # pandas (outside this property, see ASSUMPTIONS)
+            return [], 0, 0
+        if exp0:
+            n_levels = len(next(iter(exp0))[1])
+    site = 'create_count_table' + (f':-o-{kind.replace(".", "-")}' if kind else '')
     try:
-        got = _run_table(files, which, opt, contig, bed, sample_tags)
+        got = _run_table(files, which, opt, contig, bed, sample_tags, extra, n_levels)
     except Exception as ex:
-        out.append((f'create_count_table:exception:{type(ex).__name__}', {'error': repr(ex), 'bam': which}))
+        out.append((f'{site}:exception:{type(ex).__name__}', {'error': repr(ex), 'bam': which}))
         if which != 'full':
             return out, 0, 0
         which = 'mapped'      # keep judging the rest of the table: same reads minus the unmapped ones
         try:
-            got = _run_table(files, which, opt, contig, bed, sample_tags)
+            got = _run_table(files, which, opt, contig, bed, sample_tags, extra, n_levels)
         except Exception as ex2:
-            out.append((f'create_count_table:exception:{type(ex2).__name__}', {'error': repr(ex2), 'bam': which}))
+            out.append((f'{site}:exception:{type(ex2).__name__}', {'error': repr(ex2), 'bam': which}))
             return out, 0, 0
     reads = files.sets[which]
-    bl_idx = R.BLACKLIST_IDX if opt['blacklist'] else None
     exp, amb = O.expected_table(reads, opt, R.CONTIG_NAMES, bl_idx, stags, contig=contig,
                                 bed=(R.BED if bed else None))
     compared = 0
     if sample_tags == 'SM,ri':
+        head = extra.get('head')
+        must = None          # with -head: the reads that have to be there (None = all)
+        if head is not None:
+            site += ':head'
+            must = set() if bed else {rd['ri'] for rd in file_order(reads, contig)[:head]}
+        from oracles.c11_oracle import MODES
+        key_class = ':single-tags+splitFeatures+bedfile' if (bed and opt['splitFeatures'] and not MODES[opt['features']][0]) else ''
         got_by, exp_by = collections.defaultdict(dict), collections.defaultdict(dict)
         for (sm, k), v in got.items():
             got_by[sm][(sm, k)] = v
@@ -257,6 +420,9 @@ def check_table(files, opt, contig, bed, sample_tags):
             known.add(sm)
             if sm in amb:
                 continue
+            g = {k: v for k, v in got_by.get(sm, {}).items() if abs(v) > TOL}
+            if must is not None and rd['ri'] not in must and not g:
+                continue          # beyond the first N records and not counted: allowed
             compared += 1
             excl = []
             cname = R.CONTIG_NAMES[rd['contig']]
@@ -264,18 +430,36 @@ def check_table(files, opt, contig, bed, sample_tags):
                 excl.append('contig-selection')
             elif bed and not any(c == cname and s <= rd['pos'] and rd['pos'] + 1 <= e for c, s, e, _ in R.BED):
                 excl.append('bed-region')
-            out.extend(classify('create_count_table', rd, opt, bl_idx, got_by.get(sm, {}), exp_by.get(sm, {}), excl))
+            out.extend(classify(site, rd, opt, bl_idx, g, exp_by.get(sm, {}), excl, key_class))
         stray = sorted(set(got_by) - known, key=repr)
         if stray:
-            out.append(('create_count_table:column-of-no-read', {'columns': [list(s) for s in stray][:5]}))
+            out.append((f'{site}:column-of-no-read', {'columns': [list(s) for s in stray][:5]}))
     else:
         assert not amb
+        merge = lambda a, b: {x + y for x in a for y in b}
+        if kind and kind.endswith('+bulk'):
+            # "sum the counts of all sampleTags into a single column" (named Bulkseq by the program; the name is not judged)
+            tot = {}
+            for (sm, k), v in exp.items():
+                tot[k] = merge(tot[k], v) if k in tot else v
+            exp = {(('bulk',), k): v for k, v in tot.items()}
+            cols = {sm for sm, _ in got}
+            if len(cols) > 1:
+                out.append((f'{site}:bulk-table-has-several-columns', {'columns': sorted(map(repr, cols))[:5]}))
+            got = {(('bulk',), k): v for (sm, k), v in got.items()}
+        if kind and kind.startswith('csv'):
+            exp = _str_cells(exp, merge)
+            got = _str_cells(got, lambda a, b: a + b)
+        label = 'pooled-samples' if not kind else 'written-table'
+        from oracles.c11_oracle import MODES
+        if bed and opt['splitFeatures'] and not MODES[opt['features']][0]:
+            label += ':single-tags+splitFeatures+bedfile'
         for cell in sorted(set(got) | set(exp), key=repr):
             compared += 1
             if not _ok(got.get(cell, 0.0), exp.get(cell, {0.0})):
-                out.append(('create_count_table:pooled-samples:cell-total-differs',
+                out.append((f'create_count_table:{label}:cell-total-differs',
                             {'cell': [list(cell[0]), list(cell[1])], 'got': got.get(cell, 0.0),
-                             'expected': sorted(exp.get(cell, {0.0}))[:6]}))
+                             'expected': sorted(exp.get(cell, {0.0}))[:6], 'extra': extra}))
                 break
     seen, dedup = set(), []
     for sig, d in out:
@@ -291,22 +475,40 @@ def _d2(tier):
     return 2 if tier == 'quick' else 3
 
 
+def _extra_label(extra):
+    return ','.join(f'{k}={v}' for k, v in sorted(extra.items())) or '-'
+
+
 def run_shard(shard, tier, acc):
     from gen import c11_reads as R
     from oracles import c11_oracle as O
     if shard[0] == 'read':
-        fixed = dict(zip(R.SHARD_DIMS, shard[1]))
-        maxd = 3 if tier == 'quick' else len(R.DIMS)
+        wide = 3
+        if tier == 'quick':
+            opts = R.option_sets(2, core_max_distance=3)
+        else:
+            opts = R.option_sets(wide, core_max_distance=len(R.DIMS))
+        opts = opts[shard[1]::N_READ_SHARDS]
         hdr, reads, pys = _level1_setup()
-        for opt in R.option_sets(maxd, fixed):
-            args = R.make_args(opt)
+        for opt in opts:
+            args = R.make_args(opt, level1=True)
+            # beyond the distance bound only the first version's space: core option values x core reads
+            core_only = tier != 'quick' and R.distance(opt) > wide
+            mode = opt['features'] + ('+split' if opt['splitFeatures'] else '')
+            n = n_new = 0
             for i, (rd, pr) in enumerate(zip(reads, pys)):
+                if core_only and not rd['core']:
+                    continue
                 viols, exp = check_read(rd, pr, opt, args)
                 case = {'level': 'read', 'read_index': i, 'opt': opt}
                 amb = exp == O.AMBIGUOUS
                 acc.case(case, nontrivial=(not amb and _nontrivial(rd, opt, exp)), outcome=_outcome(exp))
+                n += 1
+                n_new += not rd['core']
                 for sig, d in viols:
                     acc.violation(sig, case, d)
+            acc.count(f'level1_cases:features={mode}', n)
+            acc.count('level1_cases:read_with_audit_letter', n_new)
     elif shard[0] == 'table':
         cfgs = table_configs(_d2(tier))
         mine = [c for j, c in enumerate(cfgs) if j % N_TABLE_SHARDS == shard[1]]
@@ -314,11 +516,12 @@ def run_shard(shard, tier, acc):
             return
         files = Files()
         try:
-            for opt, contig, bed, stags in mine:
-                viols, compared, namb = check_table(files, opt, contig, bed, stags)
-                case = {'level': 'table', 'opt': opt, 'contig': contig, 'bed': bed, 'sampleTags': stags}
+            for opt, contig, bed, stags, extra in mine:
+                viols, compared, namb = check_table(files, opt, contig, bed, stags, extra)
+                case = {'level': 'table', 'opt': opt, 'contig': contig, 'bed': bed, 'sampleTags': stags, 'extra': extra}
                 acc.case(case, transitions=len(files.reads), nontrivial=True,
-                         outcome=f'table:{stags}:contig={contig}:bed={bed}:{opt["features"]}')
+                         outcome=f'table:{stags}:contig={contig}:bed={bed}:{opt["features"]}'
+                                 f'{"+split" if opt["splitFeatures"] else ""}:{_extra_label(extra)}')
                 acc.count('table_reads_compared', compared)
                 acc.count('table_reads_ambiguous_not_compared', namb)
                 for sig, d in viols:
@@ -336,6 +539,6 @@ def replay(case):
         return check_read(reads[i], pys[i], case['opt'])[0]
     files = Files()
     try:
-        return check_table(files, case['opt'], case['contig'], case['bed'], case['sampleTags'])[0]
+        return check_table(files, case['opt'], case['contig'], case['bed'], case['sampleTags'], case.get('extra'))[0]
     finally:
         files.close()
